@@ -179,7 +179,7 @@ func scC16(r *Run) {
 func scC19(r *Run) {
 	var sd time.Duration
 	runMuxSeq(r, &muxSeqOpts{
-		gen: muxGen{variants: []string{"ll"}, minCalls: 100, maxCalls: 600, paramChanges: false, constLeading: true, singleAUAudio: false},
+		gen: muxGen{variants: []string{"ll"}, minCalls: 100, maxCalls: 600, paramChanges: r.T.Chance(1, 3), constLeading: true, singleAUAudio: false},
 		oracle: func(w *muxWorld) {
 			w.obs.reportProblems(r, "grammar", "blocked")
 			if r.Failed() {
